@@ -31,6 +31,8 @@ let () =
     let c = curve_of c in
     let polys = Model.reshare_polys c (as_ints oks) (as_ints oxs) (List.map as_ints (as_list tails)) in
     let nks = as_ints nks in
+    (* the old members deal to the new ids: ids that are 0 or coincide modulo the order are refused before anything is sent *)
+    if not (Model.check_indexes c nks) then A "Err" else
     (match Model.kg_bigx c polys nks, Model.kg_pub c polys with
      | Model.Ok bx, Model.Ok pub -> L [A "Ok"; L [vints (Model.rs_shares c polys nks); vints (Model.flatten bx); vpt pub]]
      | _ -> A "Panic")
